@@ -328,6 +328,235 @@ def gen_fitters(repo):
 # ----------------------------------------------------------------------------------------------------------
 # Gen/FitGlue.v
 # ----------------------------------------------------------------------------------------------------------
+
+# ----------------------------------------------------------------------------------------------------------
+# normalisation of a function body before its shape is matched (semantics-preserving, otherwise untouched):
+#   * `a, b = e1, e2`  ->  `a = e1; b = e2`            (when no target occurs in a value)
+#   * a local closure `def h(p..): return E` called positionally is replaced by E[p := args]
+#     (free names of E are never assigned in the enclosing function)
+#   * a local NAME assigned exactly once to a side-effect-free expression whose free names are not assigned
+#     afterwards is replaced by that expression (names the recognisers anchor on are kept)
+#   * a module-level NAME = (lit.A, ...) / [lit.A, ...] assigned once is replaced by its value; the right-hand
+#     side of `in` is printed as a tuple
+# Everything the recognisers do not understand after that still fails closed.
+# ----------------------------------------------------------------------------------------------------------
+import copy
+
+PURE_CALLS = {"utils.numerical_derivative"}
+# callees that may run between the definition of a local and its uses without changing what the definition denotes
+HARMLESS_CALLS = {"utils.numerical_derivative", "any", "all", "len", "zip", "sum", "np.sqrt", "np.diag",
+                  "__combine_fit_func_and_fit_params"}
+
+
+def _interferes(f, first, last):
+    """something between two lines that could change the value of a side-effect-free expression: a call outside the
+    white list, a store into an attribute / an item, an augmented assignment, a deletion"""
+    for n in ast.walk(f):
+        ln = getattr(n, "lineno", None)
+        if ln is None or not first < ln <= last:
+            continue
+        if isinstance(n, ast.Call) and ast.unparse(n.func) not in HARMLESS_CALLS:
+            return True
+        if isinstance(n, (ast.Attribute, ast.Subscript)) and isinstance(n.ctx, (ast.Store, ast.Del)):
+            return True
+        if isinstance(n, (ast.AugAssign, ast.Delete)):
+            return True
+    return False
+
+
+def _pure(n):
+    if isinstance(n, (ast.Name, ast.Constant)):
+        return True
+    if isinstance(n, ast.Attribute):
+        return _pure(n.value)
+    if isinstance(n, ast.Subscript):
+        return _pure(n.value) and _pure(n.slice)
+    if isinstance(n, ast.Slice):
+        return all(x is None or _pure(x) for x in (n.lower, n.upper, n.step))
+    if isinstance(n, (ast.BinOp,)):
+        return _pure(n.left) and _pure(n.right)
+    if isinstance(n, ast.UnaryOp):
+        return _pure(n.operand)
+    if isinstance(n, ast.BoolOp):
+        return all(_pure(v) for v in n.values)
+    if isinstance(n, ast.Compare):
+        return _pure(n.left) and all(_pure(c) for c in n.comparators)
+    if isinstance(n, (ast.Tuple, ast.List)):
+        return all(_pure(e) for e in n.elts)
+    if isinstance(n, ast.IfExp):
+        return _pure(n.test) and _pure(n.body) and _pure(n.orelse)
+    if isinstance(n, ast.Call):
+        return ast.unparse(n.func) in PURE_CALLS and not n.keywords and all(_pure(a) for a in n.args)
+    return False
+
+
+def _stores(node):
+    """(name, lineno) of every binding inside node"""
+    out = []
+    for n in ast.walk(node):
+        if isinstance(n, ast.Name) and isinstance(n.ctx, (ast.Store, ast.Del)):
+            out.append((n.id, n.lineno))
+        elif isinstance(n, (ast.FunctionDef, ast.ClassDef)) and n is not node:
+            out.append((n.name, n.lineno))
+        elif isinstance(n, ast.arg) :
+            pass
+    return out
+
+
+def _free_names(expr):
+    return {n.id for n in ast.walk(expr) if isinstance(n, ast.Name) and isinstance(n.ctx, ast.Load)}
+
+
+class _Subst(ast.NodeTransformer):
+    def __init__(self, mapping, after=0):
+        self.mapping, self.after = mapping, after
+
+    def visit_Name(self, node):
+        if isinstance(node.ctx, ast.Load) and node.id in self.mapping and getattr(node, "lineno", 10 ** 9) > self.after:
+            return ast.copy_location(copy.deepcopy(self.mapping[node.id]), node)
+        return node
+
+
+def _blocks(stmts):
+    """every statement list reachable from [stmts] (not into nested function definitions)"""
+    yield stmts
+    for st in stmts:
+        for field in ("body", "orelse", "finalbody"):
+            sub = getattr(st, field, None)
+            if isinstance(sub, list) and sub and not isinstance(st, (ast.FunctionDef, ast.ClassDef, ast.Lambda)):
+                yield from _blocks(sub)
+        for h in getattr(st, "handlers", []) or []:
+            yield from _blocks(h.body)
+
+
+def module_constants(tree):
+    consts, counts = {}, {}
+    for n in ast.walk(tree):
+        if isinstance(n, ast.Name) and isinstance(n.ctx, ast.Store):
+            counts[n.id] = counts.get(n.id, 0) + 1
+    for n in tree.body:
+        if isinstance(n, ast.Assign) and len(n.targets) == 1 and isinstance(n.targets[0], ast.Name) \
+                and isinstance(n.value, (ast.Tuple, ast.List)) and counts.get(n.targets[0].id) == 1 \
+                and all(isinstance(e, ast.Attribute) and isinstance(e.value, ast.Name) and e.value.id == "lit" for e in n.value.elts):
+            consts[n.targets[0].id] = n.value
+    return consts
+
+
+def normalize_function(fdef, consts=None, keep=()):
+    f = copy.deepcopy(fdef)
+    f.body = strip_doc(f.body)
+    params = {a.arg for a in f.args.args + f.args.kwonlyargs + f.args.posonlyargs}
+    if f.args.vararg:
+        params.add(f.args.vararg.arg)
+    if f.args.kwarg:
+        params.add(f.args.kwarg.arg)
+    # module constants (not shadowed locally)
+    if consts:
+        local = {name for name, _ in _stores(f)} | params
+        f = _Subst({k: v for k, v in consts.items() if k not in local}).visit(f)
+    # tuple assignments
+    for block in list(_blocks(f.body)):
+        i = 0
+        while i < len(block):
+            st = block[i]
+            if isinstance(st, ast.Assign) and len(st.targets) == 1 and isinstance(st.targets[0], ast.Tuple) \
+                    and isinstance(st.value, ast.Tuple) and len(st.value.elts) == len(st.targets[0].elts) \
+                    and all(isinstance(t, ast.Name) for t in st.targets[0].elts):
+                names = {t.id for t in st.targets[0].elts}
+                if not any(names & _free_names(v) for v in st.value.elts):
+                    new = [ast.copy_location(ast.Assign(targets=[t], value=v), st)
+                           for t, v in zip(st.targets[0].elts, st.value.elts)]
+                    block[i:i + 1] = new
+                    i += len(new)
+                    continue
+            i += 1
+    ast.fix_missing_locations(f)
+    # local closures
+    changed = True
+    while changed:
+        changed = False
+        stores = _stores(f)
+        for block in _blocks(f.body):
+            for st in block:
+                if not isinstance(st, ast.FunctionDef):
+                    continue
+                a = st.args
+                inner = strip_doc(st.body)
+                if a.vararg or a.kwarg or a.kwonlyargs or a.defaults or a.posonlyargs or st.decorator_list \
+                        or len(inner) != 1 or not isinstance(inner[0], ast.Return) or inner[0].value is None:
+                    continue
+                pnames = [x.arg for x in a.args]
+                expr = inner[0].value
+                free = _free_names(expr) - set(pnames)
+                if sum(1 for n, _ in stores if n == st.name) != 1 or any(n in free for n, _ in stores):
+                    continue
+                uses = [n for n in ast.walk(f) if isinstance(n, ast.Name) and n.id == st.name and isinstance(n.ctx, ast.Load)]
+                calls = [n for n in ast.walk(f) if isinstance(n, ast.Call) and isinstance(n.func, ast.Name)
+                         and n.func.id == st.name and not n.keywords and len(n.args) == len(pnames)
+                         and all(_pure(x) for x in n.args)]
+                if len(uses) != len(calls) or not calls:
+                    continue
+
+                class Inline(ast.NodeTransformer):
+                    def visit_Call(self, node):
+                        self.generic_visit(node)
+                        if isinstance(node.func, ast.Name) and node.func.id == st.name:
+                            e = _Subst(dict(zip(pnames, node.args))).visit(copy.deepcopy(expr))
+                            for sub in ast.walk(e):
+                                ast.copy_location(sub, node)
+                            return e
+                        return node
+                block.remove(st)
+                f = Inline().visit(f)
+                ast.fix_missing_locations(f)
+                changed = True
+                break
+            if changed:
+                break
+    # single-assignment side-effect-free locals
+    loops = [n for n in ast.walk(f) if isinstance(n, (ast.For, ast.While))]
+    changed = True
+    while changed:
+        changed = False
+        stores = _stores(f)
+        for block in _blocks(f.body):
+            for st in block:
+                if not (isinstance(st, ast.Assign) and len(st.targets) == 1 and isinstance(st.targets[0], ast.Name)):
+                    continue
+                name = st.targets[0].id
+                if name in keep or name in params or not _pure(st.value) or isinstance(st.value, (ast.Constant,)) \
+                        or sum(1 for n, _ in stores if n == name) != 1:
+                    continue
+                if any(st in list(ast.walk(lp)) for lp in loops):
+                    continue
+                free = _free_names(st.value)
+                if name in free or any(n in free and ln > st.lineno for n, ln in stores):
+                    continue
+                uses = [n for n in ast.walk(f) if isinstance(n, ast.Name) and n.id == name and isinstance(n.ctx, ast.Load)]
+                if not uses or any(u.lineno <= st.lineno for u in uses):
+                    continue
+                end = getattr(st, "end_lineno", st.lineno)
+                if _interferes(f, end, max(u.lineno for u in uses) - 1):
+                    continue
+                block.remove(st)
+                f = _Subst({name: st.value}, after=end).visit(f)
+                changed = True
+                break
+            if changed:
+                break
+    return f
+
+
+def canon(node):
+    """text of a node with the right-hand side of `in` printed as a tuple"""
+    n = copy.deepcopy(node)
+    for c in ast.walk(n):
+        if isinstance(c, ast.Compare) and len(c.ops) == 1 and isinstance(c.ops[0], (ast.In, ast.NotIn)) \
+                and isinstance(c.comparators[0], ast.List):
+            c.comparators[0] = ast.Tuple(elts=c.comparators[0].elts, ctx=ast.Load())
+    return ast.unparse(n)
+
+
 CMPQ = {ast.Lt: "(negb (Qle_bool {1} {0}))", ast.LtE: "(Qle_bool {0} {1})", ast.Gt: "(negb (Qle_bool {0} {1}))",
         ast.GtE: "(Qle_bool {1} {0})", ast.Eq: "(Qeq_bool {0} {1})", ast.NotEq: "(negb (Qeq_bool {0} {1}))"}
 CMPPY = {ast.Lt: lambda a, b: a < b, ast.LtE: lambda a, b: a <= b, ast.Gt: lambda a, b: a > b,
@@ -359,7 +588,12 @@ def nat_expr(file, n, names):
     raise TranslateError(file, n, "index expression " + ast.unparse(n)[:60])
 
 
-def _func(tree, name, file, cls=None):
+def _func(tree, name, file, cls=None, keep=()):
+    """the (normalised, see normalize_function) definition of a function / method"""
+    return normalize_function(_func_raw(tree, name, file, cls), module_constants(tree), keep)
+
+
+def _func_raw(tree, name, file, cls=None):
     body = tree.body
     if cls:
         for n in body:
@@ -390,15 +624,21 @@ def gen_fitglue(repo):
             defsQ.append("(* {} *)\nDefinition {} ({} : Q) : Q :=\n  {}.".format(comment, name, binders, pr(ir, "Q")))
 
     # 1 -- __polynomial_fit -------------------------------------------------------------------
-    f = _func(ft, "__polynomial_fit", FITTING)
+    f = _func(ft, "__polynomial_fit", FITTING, keep=("weights",))
     body = strip_doc(f.body)
     if [a.arg for a in f.args.args] != ["xdata", "ydata", "degrees", "yerr"] or len(body) != 4:
         raise TranslateError(FITTING, f, "__polynomial_fit: signature / number of statements")
     st = body[0]
-    if not (isinstance(st, ast.Assign) and ast.unparse(st.targets[0]) == "weights" and isinstance(st.value, ast.IfExp)
-            and ast.unparse(st.value.test) == "yerr is not None" and ast.unparse(st.value.orelse) == "None"):
+    wexpr = None
+    if isinstance(st, ast.Assign) and ast.unparse(st.targets[0]) == "weights" and isinstance(st.value, ast.IfExp):
+        t, b, o = ast.unparse(st.value.test), st.value.body, st.value.orelse
+        if t == "yerr is not None" and ast.unparse(o) == "None":
+            wexpr = b
+        elif t == "yerr is None" and ast.unparse(b) == "None":
+            wexpr = o
+    if wexpr is None:
         raise TranslateError(FITTING, st, "__polynomial_fit: weights = E if yerr is not None else None")
-    both("polyfit_weight", "v_yerr", ExprTr(FITTING, ["yerr"]).tr(st.value.body),
+    both("polyfit_weight", "v_yerr", ExprTr(FITTING, ["yerr"]).tr(wexpr),
          "{}:{} weights handed to numpy.polyfit".format(FITTING, st.lineno))
     _expect(FITTING, body[1], "popt, pcov = np.polyfit(xdata.values, ydata.values, degrees, cov=True, w=weights)",
             "__polynomial_fit")
@@ -406,13 +646,13 @@ def gen_fitglue(repo):
     _expect(FITTING, body[3], "return RawFitResults(popt, perr, pcov)", "__polynomial_fit")
 
     # 2 -- fit_to_xy_dataset: mask, yerr selection, dispatch -----------------------------------
-    f = _func(ft, "fit_to_xy_dataset", FITTING)
+    f = _func(ft, "fit_to_xy_dataset", FITTING, keep=("x_to_fit", "y_to_fit", "yerr", "xrange", "pcorr", "params", "result_func"))
     body = strip_doc(f.body)
     ifs = [n for n in body if isinstance(n, ast.If) and ast.unparse(n.test) == "xrange and utils.validate_xrange(xrange)"]
     if len(ifs) != 1:
         raise TranslateError(FITTING, f, "fit_to_xy_dataset: `if xrange and utils.validate_xrange(xrange):` not found once")
     sel = ifs[0]
-    if len(sel.body) != 2 or len(sel.orelse) != 2:
+    if len(sel.body) != 2 or len(sel.orelse) not in (0, 2):
         raise TranslateError(FITTING, sel, "fit_to_xy_dataset: selection block shape")
     masks = []
     for st, tgt, src in zip(sel.body, ("x_to_fit", "y_to_fit"), ("dataset.xdata", "dataset.ydata")):
@@ -422,28 +662,42 @@ def gen_fitglue(repo):
         masks.append(st.value.slice)
     if ast.unparse(masks[0]) != ast.unparse(masks[1]):
         raise TranslateError(FITTING, sel, "fit_to_xy_dataset: x and y are selected with different masks")
-    _expect(FITTING, sel.orelse[0], "x_to_fit = dataset.xdata", "fit_to_xy_dataset")
-    _expect(FITTING, sel.orelse[1], "y_to_fit = dataset.ydata", "fit_to_xy_dataset")
+    stores = [n for n, _ in _stores(f)]
+    if stores.count("x_to_fit") != 2 or stores.count("y_to_fit") != 2:
+        raise TranslateError(FITTING, sel, "fit_to_xy_dataset: x_to_fit / y_to_fit assigned elsewhere")
+    if sel.orelse:
+        # whole data set in the else branch ...
+        _expect(FITTING, sel.orelse[0], "x_to_fit = dataset.xdata", "fit_to_xy_dataset")
+        _expect(FITTING, sel.orelse[1], "y_to_fit = dataset.ydata", "fit_to_xy_dataset")
+    else:
+        # ... or assigned (at the top level of the function) before the conditional selection
+        before = [ast.unparse(n) for n in body[:body.index(sel)]]
+        if before.count("x_to_fit = dataset.xdata") != 1 or before.count("y_to_fit = dataset.ydata") != 1:
+            raise TranslateError(FITTING, sel, "fit_to_xy_dataset: whole data set not assigned before the selection")
     etr = ExprTr(FITTING, [], calls={"xrange[0]": "lo", "xrange[1]": "hi", "dataset.xdata": "x"})
     defsQ.append("(* {}:{} boolean mask of the x-range selection *)\nDefinition in_range (v_lo v_hi v_x : Q) : bool :=\n  {}."
                  .format(FITTING, sel.lineno, bool_q(FITTING, masks[0], etr)))
     texts = [ast.unparse(n) for n in body]
+    disp = [n for n in body if isinstance(n, ast.If) and canon(n.test) == "fit_model.name in (lit.POLY, lit.LIN, lit.QUAD)"]
+    if len(disp) != 1 or len(disp[0].body) != 1 or len(disp[0].orelse) != 1 or not isinstance(disp[0].body[0], ast.Assign) \
+            or not isinstance(disp[0].body[0].targets[0], ast.Name):
+        raise TranslateError(FITTING, f, "fit_to_xy_dataset: polynomial / curve_fit dispatch")
+    raw = disp[0].body[0].targets[0].id           # the local that holds the raw results (any name, assigned only here)
+    if [n for n, _ in _stores(f)].count(raw) != 2:
+        raise TranslateError(FITTING, disp[0], "fit_to_xy_dataset: raw results assigned elsewhere")
+    _expect(FITTING, disp[0].body[0],
+            raw + " = __polynomial_fit(x_to_fit, y_to_fit, fit_model.param_constraints.length - 1, yerr)", "dispatch")
+    _expect(FITTING, disp[0].orelse[0],
+            raw + " = __curve_fit(fit_model.func, x_to_fit, y_to_fit, param_info.parguess, yerr)", "dispatch")
     for want in ("xrange = kwargs.get('xrange', None)",
                  "yerr = y_to_fit.errors if any((err > 0 for err in y_to_fit.errors)) else None",
-                 "pcorr = utils.cov2corr(raw_res.pcov)", "__correlate_fit_params(params, raw_res.pcov)",
+                 "pcorr = utils.cov2corr({}.pcov)".format(raw), "__correlate_fit_params(params, {}.pcov)".format(raw),
                  "result_func = __combine_fit_func_and_fit_params(fit_model.func, params)"):
         if texts.count(want) != 1:
             raise TranslateError(FITTING, f, "fit_to_xy_dataset: statement `{}` not found once".format(want))
-    disp = [n for n in body if isinstance(n, ast.If) and ast.unparse(n.test) == "fit_model.name in [lit.POLY, lit.LIN, lit.QUAD]"]
-    if len(disp) != 1 or len(disp[0].body) != 1 or len(disp[0].orelse) != 1:
-        raise TranslateError(FITTING, f, "fit_to_xy_dataset: polynomial / curve_fit dispatch")
-    _expect(FITTING, disp[0].body[0],
-            "raw_res = __polynomial_fit(x_to_fit, y_to_fit, fit_model.param_constraints.length - 1, yerr)", "dispatch")
-    _expect(FITTING, disp[0].orelse[0],
-            "raw_res = __curve_fit(fit_model.func, x_to_fit, y_to_fit, param_info.parguess, yerr)", "dispatch")
 
     # 3 -- __curve_fit: effective variance -----------------------------------------------------
-    f = _func(ft, "__curve_fit", FITTING)
+    f = _func(ft, "__curve_fit", FITTING, keep=("yerr", "adjusted_yerr", "func", "popt", "pcov", "perr"))
     body = strip_doc(f.body)
     if [a.arg for a in f.args.args] != ["fit_func", "xdata", "ydata", "parguess", "yerr"]:
         raise TranslateError(FITTING, f, "__curve_fit: signature")
@@ -488,13 +742,19 @@ def gen_fitglue(repo):
         raise TranslateError(FITTING, f, "__curve_fit: tail")
 
     # 4 -- XYFitResult.__init__: residuals and chi-squared --------------------------------------
-    f = _func(ft, "__init__", FITTING, cls="XYFitResult")
-    texts = {ast.unparse(n): n for n in strip_doc(f.body)}
-    for want in ("y_fit_res = result_func(self._dataset.xdata)", "y_err = self._dataset.ydata - y_fit_res",
-                 "self._result = FitResults(result_func, result_params, y_err, chi2, pcorr)"):
-        if want not in texts:
-            raise TranslateError(FITTING, f, "XYFitResult.__init__: statement `{}` not found".format(want))
-    chi = [n for n in strip_doc(f.body) if isinstance(n, ast.Assign) and ast.unparse(n.targets[0]) == "chi2"]
+    f = _func(ft, "__init__", FITTING, cls="XYFitResult", keep=("chi2",))
+    stmts = strip_doc(f.body)
+    fitted = [n for n in stmts if isinstance(n, ast.Assign) and isinstance(n.targets[0], ast.Name)
+              and ast.unparse(n.value) == "result_func(self._dataset.xdata)"]
+    if len(fitted) != 1 or [n for n, _ in _stores(f)].count(fitted[0].targets[0].id) != 1:
+        raise TranslateError(FITTING, f, "XYFitResult.__init__: NAME = result_func(self._dataset.xdata) not found once")
+    yfit = fitted[0].targets[0].id
+    resid = "self._dataset.ydata - " + yfit        # the residual array (a local bound once to it has been substituted)
+    texts = {ast.unparse(n): n for n in stmts}
+    want = "self._result = FitResults(result_func, result_params, {}, chi2, pcorr)".format(resid)
+    if want not in texts:
+        raise TranslateError(FITTING, f, "XYFitResult.__init__: statement `{}` not found".format(want))
+    chi = [n for n in stmts if isinstance(n, ast.Assign) and ast.unparse(n.targets[0]) == "chi2"]
     if len(chi) != 1:
         raise TranslateError(FITTING, f, "XYFitResult.__init__: chi2 assignment")
     c = chi[0].value
@@ -502,8 +762,23 @@ def gen_fitglue(repo):
             and isinstance(c.args[0], ast.GeneratorExp) and len(c.args[0].generators) == 1):
         raise TranslateError(FITTING, chi[0], "chi2 = sum(generator)")
     g = c.args[0].generators[0]
-    if ast.unparse(g.target) != "(res, err)" or ast.unparse(g.iter) != "zip(y_err, self._dataset.yerr)" or len(g.ifs) != 1:
-        raise TranslateError(FITTING, chi[0], "chi2 generator: for res, err in zip(y_err, self._dataset.yerr) if G")
+    if not (isinstance(g.target, ast.Tuple) and len(g.target.elts) == 2 and all(isinstance(t, ast.Name) for t in g.target.elts)
+            and g.target.elts[0].id != g.target.elts[1].id
+            and ast.unparse(g.iter) == "zip({}, self._dataset.yerr)".format(resid) and len(g.ifs) == 1 and not g.is_async):
+        raise TranslateError(FITTING, chi[0], "chi2 generator: for R, E in zip(<residuals>, self._dataset.yerr) if G")
+    rname, ename = g.target.elts[0].id, g.target.elts[1].id
+
+    class _Rename(ast.NodeTransformer):
+        def visit_Name(self, node):
+            if node.id == rname:
+                return ast.copy_location(ast.Name(id="res", ctx=node.ctx), node)
+            if node.id == ename:
+                return ast.copy_location(ast.Name(id="err", ctx=node.ctx), node)
+            if node.id in ("res", "err"):
+                raise TranslateError(FITTING, node, "chi2 generator: name clash")
+            return node
+    c = _Rename().visit(copy.deepcopy(c))
+    g = c.args[0].generators[0]
     etr = ExprTr(FITTING, ["err"], calls={"res.value": "res"})
     both("chi2_term", "v_res v_err", etr.tr(c.args[0].elt), "{}:{} term of chi-squared".format(FITTING, chi[0].lineno))
     defsQ.append("(* {}:{} which points enter chi-squared *)\nDefinition chi2_guard (v_err : Q) : bool :=\n  {}.".format(
@@ -512,31 +787,42 @@ def gen_fitglue(repo):
     # 5 -- __correlate_fit_params ---------------------------------------------------------------
     f = _func(ft, "__correlate_fit_params", FITTING)
     body = strip_doc(f.body)
-    if [a.arg for a in f.args.args] != ["params", "corr"] or len(body) != 1 or not isinstance(body[0], ast.For):
+    argn = [a.arg for a in f.args.args]
+    if len(argn) != 2 or argn[0] != "params" or len(body) != 1 or not isinstance(body[0], ast.For):
         raise TranslateError(FITTING, f, "__correlate_fit_params: shape")
+    mat = argn[1]
     o = body[0]
     if ast.unparse(o.target) != "(index1, param1)" or ast.unparse(o.iter) != "enumerate(params)" or len(o.body) != 1 \
             or not isinstance(o.body[0], ast.For) or o.orelse:
         raise TranslateError(FITTING, o, "__correlate_fit_params: outer loop")
     i = o.body[0]
-    if ast.unparse(i.target) != "(index2, param2)" or ast.unparse(i.iter) != "enumerate(params[index1 + 1:])" \
-            or len(i.body) != 2 or i.orelse:
+    it = ast.unparse(i.iter)
+    if ast.unparse(i.target) != "(index2, param2)" or i.orelse \
+            or it not in ("enumerate(params[index1 + 1:])", "enumerate(params[index1 + 1:], index1 + 1)"):
         raise TranslateError(FITTING, i, "__correlate_fit_params: inner loop")
-    _expect(FITTING, i.body[0], "if param1.error == 0 or param2.error == 0:\n    continue", "__correlate_fit_params")
-    call = i.body[1]
+    # value of the loop variable index2 in terms of the position k = 0, 1, .. in params[index1 + 1:]
+    idx2 = "v_index2" if it == "enumerate(params[index1 + 1:])" else "(v_index2 + (v_index1 + 1%nat)%nat)%nat"
+    if len(i.body) == 2:
+        _expect(FITTING, i.body[0], "if param1.error == 0 or param2.error == 0:\n    continue", "__correlate_fit_params")
+        call = i.body[1]
+    elif len(i.body) == 1 and isinstance(i.body[0], ast.If) and not i.body[0].orelse and len(i.body[0].body) == 1 \
+            and ast.unparse(i.body[0].test) == "param1.error != 0 and param2.error != 0":
+        call = i.body[0].body[0]
+    else:
+        raise TranslateError(FITTING, i, "__correlate_fit_params: guard on zero uncertainties")
     if not (isinstance(call, ast.Expr) and isinstance(call.value, ast.Call)
             and ast.unparse(call.value.func) == "param1.set_covariance" and len(call.value.args) == 2
             and not call.value.keywords and ast.unparse(call.value.args[0]) == "param2"):
-        raise TranslateError(FITTING, call, "__correlate_fit_params: param1.set_covariance(param2, corr[R][C])")
+        raise TranslateError(FITTING, call, "__correlate_fit_params: param1.set_covariance(param2, M[R][C])")
     e = call.value.args[1]
-    if not (isinstance(e, ast.Subscript) and isinstance(e.value, ast.Subscript) and ast.unparse(e.value.value) == "corr"):
-        raise TranslateError(FITTING, e, "__correlate_fit_params: corr[R][C]")
-    defsQ.append("(* {}:{} entry of the covariance matrix registered for the pair (index1, index2 + index1 + 1) *)".format(
-        FITTING, call.lineno))
+    if not (isinstance(e, ast.Subscript) and isinstance(e.value, ast.Subscript) and ast.unparse(e.value.value) == mat):
+        raise TranslateError(FITTING, e, "__correlate_fit_params: M[R][C] of the matrix argument")
+    defsQ.append("(* {}:{} entry of the covariance matrix registered for the pair (index1, k + index1 + 1), k the position in "
+                 "params[index1 + 1:] *)".format(FITTING, call.lineno))
     defsQ.append("Definition corr_row (v_index1 v_index2 : nat) : nat := {}.".format(
-        nat_expr(FITTING, e.value.slice, ("index1", "index2"))))
+        nat_expr(FITTING, e.value.slice, ("index1", "index2")).replace("v_index2", idx2)))
     defsQ.append("Definition corr_col (v_index1 v_index2 : nat) : nat := {}.".format(
-        nat_expr(FITTING, e.slice, ("index1", "index2"))))
+        nat_expr(FITTING, e.slice, ("index1", "index2")).replace("v_index2", idx2)))
 
     # 6 -- utils.cov2corr ----------------------------------------------------------------------
     f = _func(ut, "cov2corr", QUTILS)
